@@ -14,5 +14,8 @@ func VerifReset() {
 	subs.UnsubscribeAll()
 	subs = config.ConfigSubscriber{}
 	initialized = false
+	if fileLog != nil {
+		fileLog.Close() // ends the writer's background goroutine
+	}
 	fileLog = nil
 }
